@@ -1,7 +1,7 @@
 (* C16 - A compiled template is interchangeable with its source.
    Statements only; proofs live in Proofs/CompiledProofs.v.
    serialize_compiled / deserialize_compiled model SerializeCompiledTemplate / DeserializeCompiledTemplate
-   of compiled.go over byte lists (Model/Compiled.v); the gob decoder of the old format is a parameter
+   of compiled.go (after repair c024bc1) over byte lists (Model/Compiled.v); the gob decoder of the old format is a parameter
    (every theorem holds for every gob decoder); wf_compiled c (Spec/CompiledSpec.v) says the three byte
    fields are shorter than 2^32 and the two timestamps are int64 values. *)
 From Twig Require Import Base.Bytes Model.Compiled Spec.CompiledSpec Proofs.CompiledProofs Gen.CompiledLayout.
@@ -19,49 +19,30 @@ Theorem C16_roundtrip_trailing : forall (gob : bytes -> option compiled) (c : co
   wf_compiled c -> deserialize_compiled gob (serialize_compiled c ++ rest) = Some c.
 Proof. exact C16_roundtrip_trailing_proof. Qed.
 
-(* the guard is needed: uint32(len(s)) wraps.  Any record with a field of 2^32 bytes or more does not
-   come back, from the binary reader or (unless the gob decoder itself produces it) from the whole
-   function *)
-Theorem C16_prefix_wrap : forall c : compiled,
-  oversize c ->
-  deserialize_binary (serialize_compiled c) <> Some c /\
-  (forall gob, gob (serialize_compiled c) <> Some c -> deserialize_compiled gob (serialize_compiled c) <> Some c).
-Proof. exact C16_prefix_wrap_proof. Qed.
+(* the writer with its guards: whatever SerializeCompiledTemplate emits deserialises to the record it
+   was given; the int64 hypotheses hold of every Go int64 *)
+Theorem C16_roundtrip_checked : forall (gob : bytes -> option compiled) (c : compiled) (data : bytes),
+  i64_range (c_last_modified c) -> i64_range (c_compile_time c) ->
+  serialize_compiled_checked c = Some data -> deserialize_compiled gob data = Some c.
+Proof. exact C16_roundtrip_checked_proof. Qed.
 
-(* and it fails silently: there is a record (name = 2^32 zero bytes, never materialised) whose length
-   prefix is four zero bytes and whose serialisation deserialises, with no error, to the empty record *)
-Theorem C16_prefix_wrap_refuted :
-  exists c : compiled,
-    lenN (c_name c) = two32 /\ put_u32 (lenN (c_name c)) = [x00; x00; x00; x00] /\
-    forall gob, deserialize_compiled gob (serialize_compiled c) = Some empty_compiled /\ empty_compiled <> c.
-Proof. exact C16_prefix_wrap_refuted_proof. Qed.
+(* the length prefixes are uint32: a record with a field of 2^32 bytes or more is refused by the
+   writer (an error, not a wrapped prefix), and only such a record is *)
+Theorem C16_oversize_refused : forall c : compiled,
+  oversize c <-> serialize_compiled_checked c = None.
+Proof. exact C16_oversize_refused_proof. Qed.
 
-(* every strict prefix of a serialisation is rejected by the binary reader, so the verdict on it is
-   exactly the verdict of the gob fallback on the same bytes *)
+(* every strict prefix of a serialisation is an error, for every gob decoder *)
 Theorem C16_truncation_is_error : forall (gob : bytes -> option compiled) (c : compiled) (p q : bytes),
   wf_compiled c -> serialize_compiled c = p ++ q -> q <> [] ->
-  deserialize_binary p = None /\
-  deserialize_compiled gob p = match p with [] => None | _ => gob p end.
+  deserialize_binary p = None /\ deserialize_compiled gob p = None.
 Proof. exact C16_truncation_is_error_proof. Qed.
 
-Theorem C16_truncation_is_error_if_gob_rejects : forall (gob : bytes -> option compiled) (c : compiled) (p q : bytes),
-  (forall d, gob (x01 :: d) = None) ->
-  wf_compiled c -> serialize_compiled c = p ++ q -> q <> [] -> deserialize_compiled gob p = None.
-Proof. exact C16_truncation_is_error_if_gob_rejects_proof. Qed.
-
-(* which prefixes are NOT errors in the code as it stands.  gob_model is the observed behaviour of
-   encoding/gob on a stream that begins with the byte 1 (Model/Compiled.v, gob_verdict_of): the second
-   byte, here the low byte of the name length, is taken for a type id, and ids 18 and 21 (bytes 36 and
-   42) decode to the zero struct.  So: a strict prefix is an error, except that when the name is 36 or
-   42 bytes long modulo 256 every prefix of two bytes or more yields the EMPTY record and no error.
-   (127 modulo 256 is excluded: gob goes on reading further messages, which is not modelled.) *)
-Theorem C16_truncation_gob_fallback : forall (c : compiled) (p q : bytes),
-  wf_compiled c -> serialize_compiled c = p ++ q -> q <> [] ->
-  lenN (c_name c) mod 256 <> 127 ->
-  deserialize_compiled gob_model p =
-    if (2 <=? lenN p) && ((lenN (c_name c) mod 256 =? 36) || (lenN (c_name c) mod 256 =? 42))
-    then Some empty_compiled else None.
-Proof. exact C16_truncation_gob_fallback_proof. Qed.
+(* because data that begins with the version byte is decided by the binary reader alone and never
+   reaches the gob fallback *)
+Theorem C16_version_byte_never_reaches_gob : forall (gob : bytes -> option compiled) (d : bytes),
+  deserialize_compiled gob (x01 :: d) = deserialize_binary (x01 :: d).
+Proof. exact C16_version_byte_never_reaches_gob_proof. Qed.
 
 (* totality and index safety.  (1) a result for every byte list and every gob decoder; (2) the one
    accessor through which every byte is read returns an error exactly when fewer than n bytes are left
@@ -78,16 +59,12 @@ Theorem C16_deserialize_total :
      deserialize_binary data = Some c -> wf_compiled c /\ exists rest, data = serialize_compiled c ++ rest).
 Proof. exact C16_deserialize_total_proof. Qed.
 
-(* where the code does not check: make([]byte, n) is called with the n read from the stream before
-   the remaining input is compared with it.  Every request is below 2^32, and nothing smaller bounds
-   it: a 5-byte input makes the reader request 4294967295 bytes before it fails *)
-Theorem C16_alloc_bound : forall (data : bytes) (n : N),
-  In n (deserialize_allocs data) -> n < two32.
-Proof. exact C16_alloc_bound_proof. Qed.
-
-Theorem C16_alloc_not_bounded_by_input :
-  exists data : bytes, lenN data = 5 /\ deserialize_binary data = None /\ deserialize_allocs data = [4294967295].
-Proof. exact C16_alloc_not_bounded_by_input_proof. Qed.
+(* memory: every make([]byte, n) of the reader comes after the test n <= r.Len(); all requests of one
+   call together never exceed the length of the input, and so does each of them *)
+Theorem C16_alloc_bounded_by_input : forall data : bytes,
+  sumN (deserialize_allocs data) <= lenN data /\
+  (forall n, In n (deserialize_allocs data) -> n <= lenN data).
+Proof. exact C16_alloc_bounded_by_input_proof. Qed.
 
 (* interchangeable with the source: LoadFromCompiled on the round-tripped record yields the tree the
    parser yields for the source, provided the stored AST, if it decodes at all, decodes to that tree.
@@ -141,33 +118,32 @@ Example C16_example_roundtrip :
   deserialize_compiled gob_model (serialize_compiled c) = Some c.
 Proof. vm_compute. reflexivity. Qed.
 
-(* a 36-byte name: the two-byte prefix 01 24 of its serialisation is accepted as the empty record *)
-Example C16_example_truncated_accepted :
-  let c := mkCompiled (repeat x61 36) [x68; x69] 5%Z 6%Z [] in
-  firstn 2 (serialize_compiled c) = [x01; x24] /\
-  deserialize_compiled gob_model (firstn 2 (serialize_compiled c)) = Some empty_compiled /\
-  deserialize_compiled gob_model (firstn 20 (serialize_compiled c)) = Some empty_compiled /\
-  deserialize_compiled gob_model (firstn 1 (serialize_compiled c)) = None.
-Proof. vm_compute. repeat split; reflexivity. Qed.
-
-(* a 35-byte name: every strict prefix is an error *)
+(* a 36-byte name (whose two-byte prefix 01 24 the unrepaired code accepted as the empty record) and a
+   35-byte name: every strict prefix is an error, the whole stream comes back *)
 Example C16_example_truncated_rejected :
-  let c := mkCompiled (repeat x61 35) [x68; x69] 5%Z 6%Z [] in
+  let c := mkCompiled (repeat x61 36) [x68; x69] 5%Z 6%Z [] in
+  let d := mkCompiled (repeat x61 35) [x68; x69] 5%Z 6%Z [] in
+  firstn 2 (serialize_compiled c) = [x01; x24] /\
   forallb (fun k => match deserialize_compiled gob_model (firstn k (serialize_compiled c)) with None => true | Some _ => false end)
           (seq 0 (length (serialize_compiled c))) = true /\
+  forallb (fun k => match deserialize_compiled gob_model (firstn k (serialize_compiled d)) with None => true | Some _ => false end)
+          (seq 0 (length (serialize_compiled d))) = true /\
   deserialize_compiled gob_model (serialize_compiled c) = Some c.
-Proof. vm_compute. split; reflexivity. Qed.
+Proof. vm_compute. repeat split; reflexivity. Qed.
+
+(* the five bytes that made the unrepaired reader ask for 4294967295 bytes: an error, nothing requested *)
+Example C16_example_alloc :
+  deserialize_binary [x01; xff; xff; xff; xff] = None /\ deserialize_allocs [x01; xff; xff; xff; xff] = [].
+Proof. exact C16_alloc_regression_example_proof. Qed.
 
 Print Assumptions C16_roundtrip.
 Print Assumptions C16_roundtrip_trailing.
-Print Assumptions C16_prefix_wrap.
-Print Assumptions C16_prefix_wrap_refuted.
+Print Assumptions C16_roundtrip_checked.
+Print Assumptions C16_oversize_refused.
 Print Assumptions C16_truncation_is_error.
-Print Assumptions C16_truncation_is_error_if_gob_rejects.
-Print Assumptions C16_truncation_gob_fallback.
+Print Assumptions C16_version_byte_never_reaches_gob.
 Print Assumptions C16_deserialize_total.
-Print Assumptions C16_alloc_bound.
-Print Assumptions C16_alloc_not_bounded_by_input.
+Print Assumptions C16_alloc_bounded_by_input.
 Print Assumptions C16_compiled_equals_source.
 Print Assumptions C16_loader_roundtrip.
 Print Assumptions C16_layout.
